@@ -89,5 +89,12 @@ META["C11"] = dict(
     technique="Lean 4 totality / termination proofs + guarded-child differential correspondence",
 )
 
+META["C03"] = dict(
+    text="Lean 4 theorem c03_fidelity_partial over an executable model of the publisher (batching by size and by an arbitrary clock oracle, send = poll_ready/start_send/poll_flush, finish) and the subscriber (unbatching, pop order): for every lossless codec, every self-inverting compressor or none, batching off or on with any size, every item list and every clock, the subscriber yields exactly the items sent in order and finish() leaves nothing in the batch or the framed writer; tied to the code by running real clients through a real server over loopback QUIC for a grid of configurations and comparing what the subscriber yields",
+    design_ref="DESIGN.md section 6, C03",
+    note="_partial: the compression libraries' round trip is a hypothesis (tested in C14); transport and server forwarding are trusted/proved elsewhere (C01)",
+    technique="Lean 4 invariant proof over hand model + end-to-end differential correspondence over loopback QUIC",
+)
+
 _PENDING = "not built yet in this session; planned at proof level (DESIGN.md section 6) — will be claimed as soon as its first theorem and correspondence suite exist"
 NOT_APPLICABLE = {f"C{n:02d}": _PENDING for n in range(1, 18)}
